@@ -24,6 +24,7 @@ HARNESS = {
     '/repo/internal/db/zz_merge_harness_test.go': f'{V}/harness/db/zz_merge_harness_test.go',
     '/repo/internal/db/zz_c03_timetravel_test.go': f'{V}/harness/db/zz_c03_timetravel_test.go',
     '/repo/internal/db/zz_c07_index_test.go': f'{V}/harness/db/zz_c07_index_test.go',
+    '/repo/internal/db/zz_c09_relation_test.go': f'{V}/harness/db/zz_c09_relation_test.go',
 }
 
 def overlay():
@@ -118,7 +119,11 @@ if prop == 'C03':
         print(f'VIOLATION property={prop} replay={rp} no-failing-input-found')
         sys.exit(1)
     probs = res.get('problems') or []
-    summary.update({'bound': f'one document (register + counter), every linear history of set-name / increment of length <= {L}; at every commit: time-travel read == ordinary read recorded right after that commit; heads and current state unchanged by the reads',
+    pm, _ = gotest('^TestGovcC03MergeCommit$', {}, 300)
+    if pm.returncode != 0:
+        probs.append({'history': 'a: create; deliver to b; a: name=fromA; b: points+=5; deliver b>a; a: age=2 (commit with two parents); time travel to it on a', 'commit': -1,
+                      'what': ' '.join(l.strip() for l in pm.stdout.splitlines() if 'C03' in l)[:600] or 'merge-commit time travel test failed'})
+    summary.update({'bound': f'one document (register + counter), every linear history of set-name / increment of length <= {L}; at every commit: time-travel read == ordinary read recorded right after that commit; heads and current state unchanged by the reads; plus one branching history: time travel to a commit with two parents equals the ordinary read right after it',
                     'cases': res['cases'], 'distinct_nontrivial': res['cases'], 'exhaustive': True, 'violating_histories': len({q['history'] for q in probs})})
     if probs:
         rp = f'{V}/replays/{prop}/bounded-history-1.json'
@@ -155,6 +160,71 @@ if prop == 'C07':
                    'replay_cmd': "go test -overlay <harness overlay> -vet=off -run '^TestGovcC07' ./internal/db"}, open(rp, 'w'), indent=1)
         lines.append(f'VIOLATION property={prop} replay={rp}')
         violations.append(('index differential', probs[:3]))
+
+if prop == 'C09':
+    import re
+    summary['function'] = 'planner join planning/inversion (expandTypeIndexJoinPlan, tryOptimizeJoinDirection*) + invertibleTypeJoin, through DB.ExecRequest (go test -overlay on two real databases, with and without indexes on the related fields and the foreign key)'
+    env = {'VERIF_BOUND_N': '30', 'VERIF_BOUND_L': '9', 'VERIF_SEED': str(seed)}
+    bound = 'User(name, age, devices) 1-N Device(model, year, owner); 3 users, up to 4 devices; directed family: users a,b,c, devices d0..d2 with every owner pattern over {none,a,b}, then one of {delete user a/b, delete d0, relink d0 to b, unlink d1, create d3 owned by c} (162 histories) plus 30 seeded random histories of length 9 over create/relink/unlink/delete; after every step 12 queries that filter or order through the relation from either side must return the same documents (same key sequence when ordered) with and without the indexes, and the (user, device) pairs seen from the User side must equal those seen from the Device side'
+    if tier == 'thorough':
+        env = {'VERIF_BOUND_N': '300', 'VERIF_BOUND_L': '10', 'VERIF_SEED': str(seed)}
+        bound = bound.replace('30 seeded random histories of length 9', '300 seeded random histories of length 10')
+    p, res = gotest('^TestGovcC09Relations$', env, 2400)
+    if res is None:
+        rp = f'{V}/replays/{prop}/bounded-harness.json'
+        os.makedirs(os.path.dirname(rp), exist_ok=True)
+        json.dump({'property': prop, 'obligation': 'bounded harness', 'reason': 'the relation differential harness no longer builds or runs against the current tree', 'output': (p.stdout + p.stderr)[-4000:]}, open(rp, 'w'), indent=1)
+        print(f'VIOLATION property={prop} replay={rp} no-failing-input-found')
+        sys.exit(1)
+    probs = res.get('problems') or []
+    kf = {k['id']: k for k in json.load(open(f'{V}/known_findings.json')) if k['property'] == prop and k.get('kind') == 'bounded-query' and k.get('status') != 'fixed'}
+    def classify(q):
+        m = re.match(r'without indexes \[(.*?)\] \(err (.*?)\), with indexes \[(.*?)\] \(err (.*?)\)$', q['what'])
+        for k in kf.values():
+            if q['query'] not in k['queries']:
+                continue
+            if k.get('diagnosis') == 'indexed == plain without the rows whose relation is null':
+                if not m or m.group(2) != '<nil>' or m.group(4) != '<nil>':
+                    continue
+                plain = [x for x in m.group(1).split(' ') if x]
+                idxd = [x for x in m.group(3).split(' ') if x]
+                if [x for x in plain if x != '{"owner":null}'] != idxd:
+                    continue
+            if k.get('diagnosis') == 'indexed has every row of plain (only extra or repeated rows)':
+                if not m or m.group(2) != '<nil>' or m.group(4) != '<nil>':
+                    continue
+                plain = [x for x in m.group(1).split(' ') if x]
+                idxd = [x for x in m.group(3).split(' ') if x]
+                rest = list(idxd)
+                ok = True
+                for x in plain:
+                    if x in rest:
+                        rest.remove(x)
+                    else:
+                        ok = False
+                if not ok:
+                    continue
+            return k['id']
+        return None
+    attributed, fresh = {}, []
+    for q in probs:
+        fid = classify(q)
+        if fid:
+            attributed.setdefault(fid, []).append(q)
+        else:
+            fresh.append(q)
+    for k in kf.values():
+        n = len(attributed.get(k['id'], []))
+        lines.append(f"KNOWN-FINDING: property={prop} {k['what']} [{k['id']}; {n} occurrence(s) in this run]")
+    summary.update({'bound': bound, 'cases': res['cases'], 'distinct_nontrivial': res['cases'], 'exhaustive': False,
+                    'violating_histories': len({q['history'] for q in probs}), 'attributed_to_known_findings': {k: len(v) for k, v in attributed.items()}})
+    if fresh:
+        rp = f'{V}/replays/{prop}/bounded-history-1.json'
+        os.makedirs(os.path.dirname(rp), exist_ok=True)
+        json.dump({'property': prop, 'obligation': 'bounded stand-in: relation differential', 'problems': fresh[:10],
+                   'replay_cmd': "go test -overlay <harness overlay> -vet=off -run '^TestGovcC09Relations$' ./internal/db"}, open(rp, 'w'), indent=1)
+        lines.append(f'VIOLATION property={prop} replay={rp}')
+        violations.append(('relation differential', fresh[:3]))
 
 summary['wall_s'] = round(time.time() - t0, 1)
 json.dump(summary, open(f'{work}/{prop}.json', 'w'), indent=1)
